@@ -12,7 +12,9 @@
    bound and every size handed to file.read is >= 0, so [take]/[drop] (which
    treat a negative bound as 0) coincide with Python slicing.  A negative
    declared length (Request passes -1 when there is no Content-Length) makes
-   the code call file.read(-1); that is outside the model.
+   the code call file.read(-1); that is outside the model.  Likewise the
+   block size is taken >= 0 (the theorems assume >= 1; with block_size = 0
+   no refill ever happens and nothing is returned).
 
    Timeout: modelled for timeout=None, where the loop of readline has no
    clock at all and a refill that returns nothing ends the call.  With a
